@@ -9,6 +9,6 @@ python3 - <<'PY'
 import sys
 sys.path.insert(0, '.')
 from scalecheck import facts
-facts.build_configs(['A', 'D'])
-print('facts pre-warmed for configurations A, D')
+facts.build_configs(['A', 'D', 'G'])
+print('facts pre-warmed for configurations A, D, G')
 PY
